@@ -17,6 +17,9 @@ NMAX = 2 ** 53 // 1000                    # largest millisecond count of the cla
 ENGINE_TS = 'pysym(z3 Real FP-error-model + cvc5 QF_BVFP)'
 
 TS_STUBS = ['xml_value is the canonical decimal text of an integer n (str(n)); int(str(n)) == n, str(int) compared by value',
+            'lexical validation inside to_py is evaluated on that text class: strip(XML whitespace) is the identity, the integer '
+            'pattern [+-]?[0-9]+ matches it, it starts with "-" iff n < 0 (n >= 0 in every slab; round(t * 1000) >= 0 for t >= 0); '
+            'what to_py does with OTHER texts is decided by C18.lex.timestamp',
             'python int / int and float * int are correctly rounded binary64 operations on exactly converted operands '
             '(requirement |int| <= 2^53 is part of every query: a model violating it is reported as inconclusive)',
             'py_value is a python float (int and Decimal arguments of to_xml are exact arithmetic and not covered)',
@@ -32,11 +35,13 @@ def _ts_paths(be, direction, var):
     from vf import pysym
     out = []
     if direction == 'x2p2x':
-        for p1 in pysym.Sym(dc.TimestampConverter.to_py, be).run({'cls': pysym.Opaque('cls'), 'xml_value': pysym.DecStr(var)}):
+        for p1 in pysym.Sym(dc.TimestampConverter.to_py, be).run({'cls': pysym.Opaque('cls'), 'xml_value': pysym.DecStr(var, nonneg=True)}):
             for p2 in pysym.Sym(dc.TimestampConverter.to_xml, be).run({'py_value': p1.ret}):
                 out.append((p1.conds + p2.conds, p1.assumes + p2.assumes, p2.ret))
     else:
         for p1 in pysym.Sym(dc.TimestampConverter.to_xml, be).run({'py_value': var}):
+            if isinstance(p1.ret, pysym.DecStr):
+                p1.ret.nonneg = True      # every slab has t >= 0 (check_valid refuses negative timestamps): round(t * 1000) >= 0
             for p2 in pysym.Sym(dc.TimestampConverter.to_py, be).run({'cls': pysym.Opaque('cls'), 'xml_value': p1.ret}):
                 out.append((p1.conds + p2.conds, p1.assumes + p2.assumes, (p1.ret, p2.ret)))
     return out
@@ -864,7 +869,7 @@ def obligations(tier):
     obs.append(Ob('C18.datetime.fields', 'harness.C18', 'datetime_fields', timeout=200 if quick else 900,
                   functions=['sdc11073.xml_types.isoduration.parse_date_time', 'sdc11073.xml_types.isoduration.XsdDateInformation.__str__'],
                   stubs=sel_stub,
-                  bounds='gYear / gYearMonth / date / dateTime / end-of-day x 5 seconds values (incl. 59.999999, 7.000001) x 5 time zones '
+                  bounds='gYear / gYearMonth / date / dateTime / end-of-day x 9 seconds values (incl. 59.999999, 7.000001, int 0 / 10 / 50) x 5 time zones '
                          'x years {1, 1990, 12345, -44}',
                   claim='str -> parse_date_time -> str round trip: all fields equal, seconds within 1 microsecond, same text'))
     tc = 60 if quick else 300
@@ -876,6 +881,11 @@ def obligations(tier):
                   f'({sum(13 ** k for k in range(maxn + 1))} texts, chosen by selectors; int() on a symbolic str is concretised by CrossHair)',
            claim='IntegerConverter.to_py(text) returns => text is an xsd:integer literal, the result is its value, to_xml gives a literal '
                  'of that value; literals are accepted'),
+        Ob('C18.lex.timestamp', 'harness.C18', 'timestamp_lex', bind={'maxn': maxn}, timeout=200 if quick else 1500,
+           functions=['sdc11073.xml_types.dataconverters.TimestampConverter.to_py'], stubs=CH_STUB[:1],
+           bounds=f'every text of <= {maxn} characters from the pool 0 1 9 + - _ space tab . e a U+0663 U+00A0',
+           claim='TimestampConverter.to_py(text) returns => text is an xsd:unsignedLong literal and the result is its value in '
+                 'milliseconds; literals are accepted'),
         Ob('C18.lex.boolean', 'harness.C18', 'boolean_lex', timeout=tc, functions=F_LEX[2:4], stubs=CH_STUB[:1],
            bounds='fully symbolic str, <= 5 characters; plus 15 fixed spellings (case variants, padded literals) chosen by selector',
            claim='BooleanConverter.to_py(s) returns => s is one of true/false/1/0 and the result is its value; to_xml gives it back; '
